@@ -585,7 +585,7 @@ theorem dt_infoAll : ∀ (ms : List Module) {s : State}, Top cfg s → DT cfg no
 
 theorem dt_ticks {s : State} (h : Top cfg s) : DT cfg none s (ticks cfg s) := by
   unfold ticks
-  have h1 : DT cfg none s (if cfg.timing && s.now - s.tTiming > 900 then { sendTiming cfg s with tTiming := s.now } else s) := by
+  have h1 : DT cfg none s (if cfg.timing && s.now - s.tTiming > cfg.pTiming then { sendTiming cfg s with tTiming := s.now } else s) := by
     split
     · unfold sendTiming
       have a1 : DT cfg none s ({ s with counts := [], inTraffic := true } : State) :=
@@ -593,9 +593,9 @@ theorem dt_ticks {s : State} (h : Top cfg s) : DT cfg none s (ticks cfg s) := by
       exact (a1.bind (fun h' => dt_fwd ok hall hfuel h' _ rfl)).bind
         (fun h' => dt_same ok hfuel h' _ rfl rfl rfl rfl rfl rfl)
     · exact DT.refl h _
-  generalize (if cfg.timing && s.now - s.tTiming > 900 then { sendTiming cfg s with tTiming := s.now } else s) = s1 at h1
+  generalize (if cfg.timing && s.now - s.tTiming > cfg.pTiming then { sendTiming cfg s with tTiming := s.now } else s) = s1 at h1
   dsimp only
-  have h2 : DT cfg none s (if s1.now - s1.tTraffic > 1000 then sendTraffic cfg s1 else s1) := by
+  have h2 : DT cfg none s (if s1.now - s1.tTraffic > cfg.pTraffic then sendTraffic cfg s1 else s1) := by
     split
     · unfold sendTraffic
       have a1 : DT cfg none s ({ s1 with inTraffic := true } : State) :=
@@ -607,7 +607,7 @@ theorem dt_ticks {s : State} (h : Top cfg s) : DT cfg none s (ticks cfg s) := by
       obtain ⟨p, _, rfl⟩ := List.mem_map.mp hf
       rfl
     · exact h1
-  generalize (if s1.now - s1.tTraffic > 1000 then sendTraffic cfg s1 else s1) = s2 at h2
+  generalize (if s1.now - s1.tTraffic > cfg.pTraffic then sendTraffic cfg s1 else s1) = s2 at h2
   split
   · unfold sendActive
     exact (((h2.bind (fun h' => dt_log ok hall hfuel h' 10)).bind (fun h' => dt_infoAll ok hall hfuel _ h')).bind
